@@ -23,6 +23,7 @@ RULE = (
     "completely and draws the rest, thorough enumerates all configurations for limit<=3 and canonical sequences for "
     "limit=4; non-trivial = at least one retried failure; distinct = distinct configuration+sequence"
 )
+RULE += '; an earlier complete call of the same wrapper (own outcome script) may precede the judged call'
 LEVEL_TEXT = (
     "Reference scan of the scripted outcome sequence decides the number of invocations, the returned value / raised "
     "exception object (identity), and the exact list of pauses. Finite configuration space: enumerated completely for "
@@ -205,10 +206,20 @@ def run_case(case) -> Outcome:
     kwargs = dict(case["kwargs"])
     clock = {"now": lambda: 0.0}
 
+    # "warm": an earlier, complete call of the SAME wrapper (its own outcome sequence) - every call counts its own attempts
+    # and asks the delay function itself
+    phase = {"seq": case.get("warm") or seq}
+
+    def end_warm_up():
+        phase["seq"] = seq
+        for lst in (calls, produced, delay_log, pauses):
+            lst.clear()
+
     def behave(a, kw):
         i = len(calls)
         calls.append((a, kw, clock["now"]()))
-        kind = seq[i] if i < len(seq) else "ok"
+        cur = phase["seq"]
+        kind = cur[i] if i < len(cur) else "ok"
         if kind == "ok":
             v = ("value", i)
             produced.append(v)
@@ -261,6 +272,12 @@ def run_case(case) -> Outcome:
         if saved is not None:
             R.sleep_sync = lambda s: pauses.append(s)
         try:
+            if case.get("warm"):
+                try:
+                    wrapped(*args, **kwargs)
+                except Exception:  # noqa: BLE001 - the warm-up call's own outcome
+                    pass
+                end_warm_up()
             try:
                 result["v"] = ("ret", wrapped(*args, **kwargs))
             except BaseException as exc:  # noqa: BLE001 - outcome under observation
@@ -288,7 +305,19 @@ def run_case(case) -> Outcome:
 
                 R.sleep = rec_sleep
             try:
+                if case.get("warm"):
+                    try:
+                        await wrapped(*args, **kwargs)
+                    except Exception:  # noqa: BLE001 - the warm-up call's own outcome
+                        pass
+                    end_warm_up()
                 try:
+                    if case.get("in_scope"):
+                        # the call is made from inside a scope (retries log through the context there)
+                        from haiway import ctx
+
+                        async with ctx.scope("c14"):
+                            return ("ret", await wrapped(*args, **kwargs))
                     return ("ret", await wrapped(*args, **kwargs))
                 except BaseException as exc:  # noqa: BLE001
                     return ("exc", exc)
@@ -369,6 +398,8 @@ def run_case(case) -> Outcome:
         classes.append("cancel-or-base")
     if case["variant"] == "async":
         classes.append("async")
+    if case.get("warm"):
+        classes.append("earlier-call-of-the-same-wrapper")
     out.classes = classes
     out.nontrivial = exp_calls > 1
     return out
@@ -422,6 +453,12 @@ def enumerate_cases(tier):
             for delay in ({"k": "none"}, {"k": "float", "v": 0.5}, {"k": "fn"}):
                 for variant in ("sync", "async"):
                     yield {**_case(variant, False, 1, catching, ncatch, delay, seq), "builtin": True}
+    # an earlier complete call of the same wrapper (limit 2, every short warm-up script x every outcome script)
+    for warm in (["ok"], ["caught", "ok"], ["caught", "caught"], ["uncaught"]):
+        for seq in itertools.product(["ok", "caught", "uncaught"], repeat=3):
+            for delay in ({"k": "none"}, {"k": "float", "v": 0.5}, {"k": "fn"}):
+                for variant in ("sync", "async"):
+                    yield {**_case(variant, False, 2, "class", 1, delay, [*seq, "ok"]), "warm": warm}
     # two overlapping calls of one wrapped async function (limit 1..2, every pair of short outcome scripts)
     short = ["ok", "caught", "uncaught"]
     for limit in (1, 2):
@@ -443,7 +480,8 @@ def strategy(tier):
         args = draw(st.lists(st.one_of(st.integers(-2, 2), st.text(max_size=2), st.none()), max_size=3))
         kwargs = draw(st.dictionaries(st.sampled_from(["k", "x", "y"]), st.integers(0, 3), max_size=2))
         builtin = draw(st.sampled_from([False, False, True]))
-        return {"builtin": builtin, **_case(
+        warm = draw(st.one_of(st.none(), st.none(), st.lists(st.sampled_from(["caught", "caught", "sub", "ok", "uncaught"]), min_size=1, max_size=limit + 1)))
+        return {"builtin": builtin, "warm": warm, "in_scope": draw(st.integers(0, 2)) == 0, **_case(
             draw(st.sampled_from(["sync", "async"])),
             draw(st.booleans()) and draw(st.booleans()),
             limit,
